@@ -320,6 +320,8 @@ def run(prog, tier):
     cfn = cc.methods.get("__call__")
     body = [U(s_) for s_ in cfn.body]
     xarg = cfn.args.args[1].arg
+    body = [b_.replace("= array(self.theta)", "= self.theta.copy()").replace("= copy(self.theta)", "= self.theta.copy()")
+            .replace("= self.theta + 0", "= self.theta.copy()") for b_ in body]      # spellings of "a copy of the conditioning point"
     ok = (len(body) == 3 and body[0].endswith("= self.theta.copy()") and body[1] == f"{body[0].split(' =')[0]}[self.variable_index] = {xarg}"
           and body[2] == f"return self.posterior({body[0].split(' =')[0]})")
     obs.append(struct_ob("conditioning-point", f"{mi.name}.Conditional.__call__", ok,
